@@ -46,6 +46,9 @@ type tcpSys struct {
 	lastDC  *MemStream
 	nport   int
 	curTxid [stun.TransactionIDSize]byte
+	// ConnectSlow / DialDone: the outgoing dial of one Connect is parked on dialGate
+	dialGate chan struct{}
+	dialTxid [stun.TransactionIDSize]byte
 	curPay  []byte
 	gen     *tcpGen
 	evMu    sync.Mutex
@@ -85,6 +88,10 @@ func (g *tcpGen) AllocateConn(c turn.AllocateConnConfig) (net.Conn, error) {
 	ra, _ := c.RemoteAddr.(*net.TCPAddr)
 	if la == nil || ra == nil {
 		return nil, errors.New("tcpGen: need TCP addresses")
+	}
+
+	if ch := g.s.dialGate; ch != nil {
+		<-ch // ConnectSlow: the dial takes time (DialDone releases it)
 	}
 
 	return g.s.net.DialTCP(la, ra)
@@ -200,6 +207,10 @@ func (s *tcpSys) peerAddr(p []any) *net.TCPAddr {
 }
 
 func (s *tcpSys) Close() {
+	if s.dialGate != nil {
+		close(s.dialGate)
+		s.dialGate = nil
+	}
 	_ = s.srv.Close()
 	for _, c := range s.ctrl {
 		_ = c.Close()
@@ -314,6 +325,17 @@ func (s *tcpSys) Do(a map[string]any, wait func()) ([]Obs, error) {
 	case "Connect":
 		pa := s.peerAddr(a["p"].([]any))
 		_, _ = s.ctrl[c].Write(s.authed(u, stun.MethodConnect, proto.PeerAddress{IP: pa.IP, Port: pa.Port}))
+	case "ConnectSlow":
+		s.dialGate = make(chan struct{})
+		pa := s.peerAddr(a["p"].([]any))
+		_, _ = s.ctrl[c].Write(s.authed(u, stun.MethodConnect, proto.PeerAddress{IP: pa.IP, Port: pa.Port}))
+		s.dialTxid = s.curTxid
+	case "DialDone":
+		if s.dialGate != nil {
+			close(s.dialGate)
+			s.dialGate = nil
+		}
+		s.curTxid = s.dialTxid // the answer that comes now belongs to the Connect of the ConnectSlow step
 	case "PeerConnect":
 		pa := s.peerAddr(a["p"].([]any))
 		ra := s.relay[c]
